@@ -6,7 +6,7 @@
      mon_rot     (C12) a shifted battle is the rotated battle
    Verdict records: [code; where...]; [0; _] means nothing to report.
    Definitions only. *)
-From GM Require Export ApiSpec AsmSpec.
+From GM Require Export ApiSpec AsmSpec CliSpec.
 Open Scope Z_scope.
 
 Definition tag_of (r : list Z) : Z := match r with x :: _ => x | [] => (-1) end.
@@ -319,6 +319,7 @@ Definition mon_case_all (l : list Z) (impl : list (list Z)) : list (list Z) :=
     end
   | 2 :: t => mon_api t impl
   | 4 :: t => nonempty_or_ok (mon_rot t impl)
+  | 13 :: t => nonempty_or_ok (mon_cli t impl)
   | k :: _ => if (10 <=? k) && (k <=? 12) then nonempty_or_ok (mon_asm l impl) else [[0; 0]]
   | _ => [[0; 0]]
   end.
@@ -327,5 +328,6 @@ Definition spec_case2 (l : list Z) : list (list Z) :=
   match l with
   | 30 :: _ => spec_asm l
   | 32 :: _ => spec_asm l
+  | 34 :: t => spec_cli t
   | _ => spec_case l
   end.
